@@ -320,8 +320,27 @@ fn check_type<T: Jetty>(tname: &str, ctx: &Ctx, shard: usize, nshards: usize, ti
             let a0 = if matches!(op, Op::Powi(_) | Op::Recip) { g.pow2(&mut rng) } else { g.val(&mut rng, true) };
             let b0 = if matches!(op, Op::Div | Op::DivAssign) { g.pow2(&mut rng) } else { g.val(&mut rng, true) };
             let asl = mk(&mut rng, a0);
-            let bsl = mk(&mut rng, b0);
-            one_case::<T>(&mut acc, &mut st, tname, "random", op, &shape, &bs, &asl, &bsl, rng.next_u64(), rng.next_u64());
+            let mut bsl = mk(&mut rng, b0);
+            // one case in seven: the derivative blocks of the outermost level agree between the two
+            // operands in their innermost real components (on nested types the inner derivative
+            // parts still differ) -- `==` on dual elements cannot tell such blocks apart
+            let twin = rep % 7 == 3;
+            if twin {
+                let nouter = match &shape {
+                    ndv_core::Shape::Level(k, _) => k.nvars(),
+                    _ => 0,
+                };
+                for (sl, &m) in bs.slot_mono.iter().enumerate() {
+                    let e = &bs.monos[m];
+                    let outer: usize = e[..nouter].iter().map(|v| *v as usize).sum();
+                    let inner: usize = e[nouter..].iter().map(|v| *v as usize).sum();
+                    if outer >= 1 && inner == 0 {
+                        bsl[sl] = asl[sl];
+                    }
+                }
+            }
+            let (ma, mb) = if twin { (0, 0) } else { (rng.next_u64(), rng.next_u64()) };
+            one_case::<T>(&mut acc, &mut st, tname, if twin { "random-twin-blocks" } else { "random" }, op, &shape, &bs, &asl, &bsl, ma, mb);
         }
         // (iii) presence enumeration: zero groups of both operands represented in all 2^k ways
         let ngroups = {
